@@ -16,6 +16,13 @@ package msgpipeline
 //       is evaluated directly on the configuration tree and compared with what the recording targets
 //       saw; accepted recipients nobody saw, loaded blocks without any decision and envelope spellings
 //       with equal lookup keys that are routed differently are violations as well.
+//       The oracle computes lookup keys, splits addresses and validates replacement values with its OWN
+//       statement of the documented normalisation (c04DocKey & co.: NFC + lower case, A-labels decoded,
+//       trailing dot dropped, everything else left alone) - never with framework/address or
+//       framework/dns, so a normaliser that starts to refuse or to change addresses it has to pass
+//       through (underscores, address literals, "--" in positions 3-4, leading/trailing hyphens, joiners,
+//       digits, single labels) shows up as a recipient that did not reach the block the documented
+//       precedence selects.  The tables sent to the Lean model still come from the real functions.
 
 import (
 	"context"
@@ -38,6 +45,8 @@ import (
 	"github.com/foxcpp/maddy/framework/module"
 	_ "github.com/foxcpp/maddy/internal/table"
 	"github.com/foxcpp/maddy/internal/verifshim/vh"
+	"golang.org/x/net/idna"
+	"golang.org/x/text/unicode/norm"
 )
 
 // ---------------------------------------------------------------- configuration tree
@@ -678,6 +687,140 @@ func c04WalkBlocks(cfg *msgpipelineCfg, f func(*rcptBlock)) {
 	src(cfg.defaultSource)
 }
 
+// ---------------------------------------------------------------- the documented normalisation (oracle side)
+//
+// Written from the documentation ("matching is case-insensitive, Unicode-normalised, domains compared
+// in U-label form") with golang.org/x/text and the raw Punycode codec only; nothing here calls
+// framework/address or framework/dns.  An address/domain the documentation gives no reason to refuse
+// HAS a key: domains are not checked against STD3 / IDNA2008 rules.
+
+func c04AsciiLower(s string) string {
+	b := []byte(s)
+	for i, ch := range b {
+		if ch >= 'A' && ch <= 'Z' {
+			b[i] = ch + ('a' - 'A')
+		}
+	}
+	return string(b)
+}
+
+func c04HasACE(label string) bool {
+	return len(label) >= 4 && c04AsciiLower(label[:4]) == "xn--"
+}
+
+// lookup key of a domain: A-labels (prefix in any letter case) decoded, NFC, lower case, no trailing dot
+func c04DocDomKey(d string) (string, bool) {
+	labels := strings.Split(d, ".")
+	for i, l := range labels {
+		if !c04HasACE(l) {
+			continue
+		}
+		for _, ch := range l {
+			if ch >= 0x80 {
+				return "", false // an A-label is ASCII
+			}
+		}
+		u, err := idna.Punycode.ToUnicode(c04AsciiLower(l))
+		if err != nil {
+			return "", false
+		}
+		labels[i] = u
+	}
+	k := strings.ToLower(norm.NFC.String(strings.Join(labels, ".")))
+	return strings.TrimSuffix(k, "."), true
+}
+
+// local part and domain of an address ("postmaster" has no domain)
+func c04DocSplit(a string) (mbox, dom string, ok bool) {
+	if strings.EqualFold(a, "postmaster") {
+		return a, "", true
+	}
+	at := strings.LastIndex(a, "@")
+	if at <= 0 || at == len(a)-1 {
+		return "", "", false
+	}
+	return a[:at], a[at+1:], true
+}
+
+// lookup key of an envelope address / full-address rule
+func c04DocKey(a string) (string, bool) {
+	if a == "" {
+		return "", true // null sender
+	}
+	mbox, dom, ok := c04DocSplit(a)
+	if !ok {
+		return "", false
+	}
+	mbox = strings.ToLower(norm.NFC.String(mbox))
+	if dom == "" {
+		return mbox, true
+	}
+	dk, ok := c04DocDomKey(dom)
+	if !ok {
+		return "", false
+	}
+	if dk == "" {
+		return "", false // not generated ("x@xn--", "x@."): the documentation does not say
+	}
+	return mbox + "@" + dk, true
+}
+
+func c04DocNormRule(r string) (string, bool) {
+	if strings.Contains(r, "@") {
+		return c04DocKey(r)
+	}
+	return c04DocDomKey(r)
+}
+
+func c04DocValidDomain(d string) bool {
+	if d == "" || len(d) > 255 || strings.HasPrefix(d, ".") || strings.Contains(d, "..") {
+		return false
+	}
+	for _, l := range strings.Split(d, ".") {
+		a := l
+		if strings.HasPrefix(l, "xn--") {
+			if _, err := idna.Punycode.ToUnicode(l); err != nil {
+				return false
+			}
+		} else if x, err := idna.Punycode.ToASCII(l); err == nil {
+			a = x
+		} else {
+			return false
+		}
+		if len(a) > 64 {
+			return false
+		}
+	}
+	return true
+}
+
+// is v usable as a replacement address (RFC 5321 mailbox; unquoted local parts only - quoted ones
+// are not generated and are left to the real function)
+func c04DocValid(v string) bool {
+	if len(v) > 320 {
+		return false
+	}
+	mbox, dom, ok := c04DocSplit(v)
+	if !ok {
+		return false
+	}
+	if dom == "" {
+		return true
+	}
+	if strings.HasPrefix(mbox, `"`) {
+		return address.ValidMailboxName(mbox) && c04DocValidDomain(dom)
+	}
+	for _, ch := range mbox {
+		switch {
+		case ch >= 0x80, ch >= '0' && ch <= '9', ch >= 'a' && ch <= 'z', ch >= 'A' && ch <= 'Z':
+		case strings.ContainsRune("!#$%&'*+-/=?^_`{|}~.", ch):
+		default:
+			return false
+		}
+	}
+	return c04DocValidDomain(dom)
+}
+
 // ---------------------------------------------------------------- oracle (the documented rules)
 
 type c04Out struct {
@@ -686,12 +829,13 @@ type c04Out struct {
 	reply   string // "" = a refusal that is not a configured reply (address cannot be normalised, modifier error)
 }
 
-func c04Key(a string) (string, bool) {
+// the REAL functions: only for the tables sent to the model (c04NormTokens), never in the oracle
+func c04RealKey(a string) (string, bool) {
 	k, err := address.ForLookup(a)
 	return k, err == nil
 }
 
-func c04NormRule(r string) (string, bool) {
+func c04RealNormRule(r string) (string, bool) {
 	var k string
 	var err error
 	if strings.Contains(r, "@") {
@@ -704,7 +848,7 @@ func c04NormRule(r string) (string, bool) {
 
 func c04RuleMatches(rules []string, k string) bool {
 	for _, r := range rules {
-		if n, ok := c04NormRule(r); ok && n == k {
+		if n, ok := c04DocNormRule(r); ok && n == k {
 			return true
 		}
 	}
@@ -720,7 +864,7 @@ func c04Replace(m c04Mod, a string) ([]string, bool) {
 			c04PickStat("rewrite." + what)
 		}
 	}
-	k, ok := c04Key(a)
+	k, ok := c04DocKey(a)
 	if !ok {
 		stat("malformed")
 		return nil, false
@@ -735,7 +879,7 @@ func c04Replace(m c04Mod, a string) ([]string, bool) {
 	}
 	if vals := find(k); len(vals) > 0 {
 		for _, v := range vals {
-			if !address.Valid(v) {
+			if !c04DocValid(v) {
 				stat("full-address.invalid-value")
 				return nil, false
 			}
@@ -743,8 +887,8 @@ func c04Replace(m c04Mod, a string) ([]string, bool) {
 		stat(fmt.Sprintf("full-address.to%d", min(len(vals), 3)))
 		return vals, true
 	}
-	mbox, dom, err := address.Split(k)
-	if err != nil {
+	mbox, dom, splitOK := c04DocSplit(k)
+	if !splitOK {
 		stat("unsplittable-unchanged")
 		return []string{a}, true
 	}
@@ -756,7 +900,7 @@ func c04Replace(m c04Mod, a string) ([]string, bool) {
 	var out []string
 	for _, v := range vals {
 		if strings.Contains(v, "@") && !strings.HasPrefix(v, `"`) && !strings.HasSuffix(v, `"`) {
-			if !address.Valid(v) {
+			if !c04DocValid(v) {
 				stat("local-part.invalid-value")
 				return nil, false
 			}
@@ -852,8 +996,8 @@ func c04Pick(ns []*c04Node, tblKind, ruleKind, dfltKind string, k string, nullSe
 		stat("address-rule")
 		return n.ch, true
 	}
-	_, dom, err := address.Split(k)
-	if err != nil {
+	_, dom, splitOK := c04DocSplit(k)
+	if !splitOK {
 		if !(nullSenderOK && k == "") {
 			stat("unsplittable")
 			return nil, false
@@ -893,7 +1037,7 @@ func c04Oracle(root []*c04Node, from, to string) c04Out {
 	}
 	k := ""
 	if f1 != "" {
-		if k, ok = c04Key(f1); !ok {
+		if k, ok = c04DocKey(f1); !ok {
 			return c04Out{refused: true}
 		}
 	}
@@ -915,7 +1059,7 @@ func c04Oracle(root []*c04Node, from, to string) c04Out {
 	}
 	out := c04Out{}
 	for _, t := range tos {
-		rk, ok := c04Key(t)
+		rk, ok := c04DocKey(t)
 		if !ok {
 			out.refused = true
 			return out
@@ -976,7 +1120,7 @@ func c04Collect(ns []*c04Node, n *c04Norm, mboxVals map[string]bool) {
 			} else {
 				n.dkey[r] = true
 			}
-			if k, ok := c04NormRule(r); ok {
+			if k, ok := c04RealNormRule(r); ok {
 				n.vrule[k] = true
 			}
 		}
@@ -1018,7 +1162,7 @@ func c04NormTokens(c *c04Case) []string {
 	for round := 0; round < 4; round++ {
 		doms := map[string]bool{}
 		for a := range n.key {
-			if k, ok := c04Key(a); ok {
+			if k, ok := c04RealKey(a); ok {
 				if _, d, err := address.Split(k); err == nil {
 					doms[d] = true
 				}
@@ -1040,7 +1184,7 @@ func c04NormTokens(c *c04Case) []string {
 	}
 	var b []string
 	for _, a := range c04Sorted(n.key) {
-		if k, ok := c04Key(a); ok {
+		if k, ok := c04RealKey(a); ok {
 			b = append(b, "k", c04S(a), c04S(k))
 		} else {
 			b = append(b, "k", c04S(a), "!")
@@ -1071,8 +1215,14 @@ func c04NormTokens(c *c04Case) []string {
 func c04Decision(o c04RcptObs) string {
 	var p []string
 	for _, d := range o.delivs {
-		fk, _ := c04Key(d.from)
-		tk, _ := c04Key(d.to)
+		fk, ok := c04DocKey(d.from)
+		if !ok {
+			fk = "!" + strings.ToLower(d.from)
+		}
+		tk, ok := c04DocKey(d.to)
+		if !ok {
+			tk = "!" + strings.ToLower(d.to)
+		}
 		p = append(p, fmt.Sprintf("%d,%s,%s", d.tgt, fk, tk))
 	}
 	return o.res + "[" + strings.Join(p, ";") + "]"
@@ -1153,6 +1303,9 @@ func c04RunCase(t *testing.T, out *vh.Out, c *c04Case) {
 		} else {
 			out.Stat("mail.refused." + obs.mail)
 		}
+		if cl := c04DomClass(e.from); cl != "" && cl != "main" {
+			out.Stat("sender.domain." + cl + map[bool]string{true: ".accepted", false: ".refused"}[obs.mail == "ok"])
+		}
 
 		// T3: documented precedence, evaluated on the configuration tree
 		for i, r := range e.rcpts {
@@ -1187,6 +1340,12 @@ func c04RunCase(t *testing.T, out *vh.Out, c *c04Case) {
 			if got.res != "ok" && len(got.delivs) > 0 {
 				out.Stat("rcpt.refused.after-partial-handoff")
 			}
+			if cl := c04DomClass(r); cl != "" && cl != "main" {
+				out.Stat("rcpt.domain." + cl + map[bool]string{true: ".accepted", false: ".refused"}[got.res == "ok"])
+			}
+			if cl := c04LocalClass(r); cl != "" {
+				out.Stat("rcpt.local." + cl + map[bool]string{true: ".accepted", false: ".refused"}[got.res == "ok"])
+			}
 		}
 
 		// T3: spelling variants with equal lookup keys get the same decision
@@ -1219,6 +1378,69 @@ var c04Domains = [][]string{
 	{"sub.example.org", "SUB.Example.org"},
 }
 
+// Domains maddy accepts in envelopes, match rules and replacement values (address.Valid,
+// validMatchRule) that are NOT clean STD3 / IDNA2008 host names.  The documentation gives them no
+// special treatment: they match their own rules (in any letter case) and otherwise go to the default
+// block.  One row = one equivalence class.
+var c04OddDomains = [][]string{
+	{"build_host.example.net", "BUILD_Host.Example.NET", "build_host.example.net."},
+	{"[192.0.2.1]"},
+	{"[IPv6:2001:db8::1]", "[IPv6:2001:DB8::1]", "[ipv6:2001:db8::1]"},
+	{"ab--c.example.net", "AB--C.example.net"},
+	{"3com.example", "3COM.Example"},
+	{"localhost", "LOCALHOST", "localhost."},
+	{"-lead.example.org", "-LEAD.Example.org"},
+	{"trail-.example.org", "Trail-.EXAMPLE.org"},
+	{"a\u200db.example.org", "A\u200dB.example.org"},
+	{"stra\u00dfe.de", "xn--strae-oqa.de", "Stra\u00dfe.DE", "XN--STRAE-OQA.de"},
+	{"1.2.3.4"},
+	{"_dmarc.sub.example.org", "_DMARC.Sub.Example.org"},
+}
+
+var c04OddNames = []string{"underscore", "ipv4-literal", "ipv6-literal", "hyphen34", "leading-digit", "single-label",
+	"leading-hyphen", "trailing-hyphen", "joiner", "sharp-s", "all-numeric", "underscore-sub"}
+
+// c04Domains followed by c04OddDomains; c04Addr.d indexes this table
+var c04AllDomains = append(append([][]string{}, c04Domains...), c04OddDomains...)
+
+// "main" or the name of the odd class the domain of a belongs to ("" = not from the alphabet)
+func c04DomClass(a string) string {
+	at := strings.LastIndex(a, "@")
+	if at < 0 {
+		return ""
+	}
+	for i, r := range c04AllDomains {
+		for _, v := range r {
+			if v == a[at+1:] {
+				if i < len(c04Domains) {
+					return "main"
+				}
+				return c04OddNames[i-len(c04Domains)]
+			}
+		}
+	}
+	return ""
+}
+
+// "unusual" when the local part of a is quoted or comes from c04OddLocals
+func c04LocalClass(a string) string {
+	at := strings.LastIndex(a, "@")
+	if at <= 0 {
+		return ""
+	}
+	if strings.HasPrefix(a, `"`) {
+		return "quoted"
+	}
+	for _, r := range c04OddLocals {
+		for _, v := range r {
+			if v == a[:at] {
+				return "unusual"
+			}
+		}
+	}
+	return ""
+}
+
 var c04Locals = [][]string{
 	{"alice", "ALICE", "Alice"},
 	{"bob", "Bob"},
@@ -1226,36 +1448,66 @@ var c04Locals = [][]string{
 	{"carol", "CAROL"},
 }
 
-var c04OddAddrs = []string{"", "postmaster", "POSTMASTER", "nodomain", "alice@xn--zz", "alice@", "@example.org"}
+// unusual but valid local parts (RFC 5321 atext, digits only); one row = one equivalence class
+var c04OddLocals = [][]string{
+	{"first.last+tag", "First.Last+TAG"},
+	{"o'brien", "O'Brien"},
+	{"user_name", "USER_NAME"},
+	{"42"},
+	{"a=b~c", "A=B~C"},
+}
+
+// c04Locals followed by c04OddLocals; c04Addr.l indexes this table
+var c04AllLocals = append(append([][]string{}, c04Locals...), c04OddLocals...)
+
+// the last two: quoted local parts (envelopes only; the key keeps the quotes)
+var c04OddAddrs = []string{"", "postmaster", "POSTMASTER", "nodomain", "alice@xn--zz", "alice@", "@example.org",
+	`"john doe"@example.org`, `"a@b"@EXAMPLE.com`}
 var c04BadRules = []string{"..", "xn--zz", "a..b", "alice@a..b", "@example.org"}
 
 type c04Gen struct {
 	r *vh.Rng
 	// per-block probability (in 1/1000) of the defects a configuration can have
 	defect int
+	// % of the domains (envelopes, rules, table keys, replacement values) taken from c04OddDomains
+	oddPct int
 }
 
 type c04Addr struct{ l, d int }
 
+// index into c04AllDomains: mostly the four ordinary domains (so that rules and envelopes keep meeting),
+// now and then one of the unusual ones
+func (g *c04Gen) dom() int {
+	if g.r.Chance(g.oddPct) {
+		return len(c04Domains) + g.r.Intn(len(c04OddDomains))
+	}
+	return g.r.Intn(len(c04Domains))
+}
+func (g *c04Gen) loc() int {
+	if g.r.Chance(g.oddPct / 3) {
+		return len(c04Locals) + g.r.Intn(len(c04OddLocals))
+	}
+	return g.r.Intn(len(c04Locals))
+}
 func (g *c04Gen) addr() c04Addr {
-	return c04Addr{g.r.Intn(len(c04Locals)), g.r.Intn(len(c04Domains))}
+	return c04Addr{g.loc(), g.dom()}
 }
 func (g *c04Gen) spell(a c04Addr) string {
-	ls, ds := c04Locals[a.l], c04Domains[a.d]
+	ls, ds := c04AllLocals[a.l], c04AllDomains[a.d]
 	if g.r.Chance(55) {
 		return ls[0] + "@" + ds[0]
 	}
 	return ls[g.r.Intn(len(ls))] + "@" + ds[g.r.Intn(len(ds))]
 }
 func (g *c04Gen) spellDom(d int) string {
-	ds := c04Domains[d]
+	ds := c04AllDomains[d]
 	if g.r.Chance(50) {
 		return ds[0]
 	}
 	return ds[g.r.Intn(len(ds))]
 }
 func (g *c04Gen) keyOf(a c04Addr) string {
-	k, _ := c04Key(c04Locals[a.l][0] + "@" + c04Domains[a.d][0])
+	k, _ := c04DocKey(c04AllLocals[a.l][0] + "@" + c04AllDomains[a.d][0])
 	return k
 }
 func (g *c04Gen) hit(perMille int) bool { return g.r.Intn(1000) < perMille }
@@ -1268,7 +1520,7 @@ func (g *c04Gen) rules() []string {
 		case g.hit(g.defect):
 			out = append(out, g.r.Pick(c04BadRules...))
 		case g.r.Chance(50):
-			out = append(out, g.spellDom(g.r.Intn(len(c04Domains))))
+			out = append(out, g.spellDom(g.dom()))
 		case g.r.Chance(8):
 			out = append(out, g.r.Pick("postmaster", "POSTMASTER"))
 		default:
@@ -1293,7 +1545,7 @@ func (g *c04Gen) tableKeys(sender bool) []string {
 		case g.r.Chance(6):
 			out = append(out, "postmaster")
 		case g.r.Chance(5):
-			out = append(out, c04Domains[g.r.Intn(len(c04Domains))][0]) // a bare domain never matches
+			out = append(out, c04AllDomains[g.dom()][0]) // a bare domain never matches
 		default:
 			out = append(out, g.keyOf(g.addr()))
 		}
@@ -1318,7 +1570,7 @@ func (g *c04Gen) modNode(level int) *c04Node {
 			case g.r.Chance(45):
 				k = g.keyOf(g.addr())
 			case g.r.Chance(75):
-				k, _ = c04Key(c04Locals[g.r.Intn(len(c04Locals))][0] + "@x")
+				k, _ = c04DocKey(c04AllLocals[g.loc()][0] + "@x")
 				k = strings.TrimSuffix(k, "@x")
 				bare = 45
 			case g.r.Chance(30):
@@ -1569,12 +1821,12 @@ func (g *c04Gen) respell(a string) string {
 		}
 		return -1
 	}
-	li, di := row(c04Locals, a[:at]), row(c04Domains, a[at+1:])
+	li, di := row(c04AllLocals, a[:at]), row(c04AllDomains, a[at+1:])
 	if li < 0 || di < 0 {
 		return a
 	}
 	for try := 0; try < 6; try++ {
-		b := g.r.Pick(c04Locals[li]...) + "@" + g.r.Pick(c04Domains[di]...)
+		b := g.r.Pick(c04AllLocals[li]...) + "@" + g.r.Pick(c04AllDomains[di]...)
 		if b != a {
 			return b
 		}
@@ -1656,6 +1908,14 @@ func TestVerifC04Routing(t *testing.T) {
 		default:
 			g.defect = 40 // mostly refused ones
 		}
+		switch (i / 10) % 4 {
+		case 0, 1:
+			g.oddPct = 12
+		case 2:
+			g.oddPct = 4
+		default:
+			g.oddPct = 45 // rules, tables and envelopes over the unusual domains meet each other
+		}
 		c04RunCase(t, out, c04Decode(strings.Join(c04Encode(g.gen()), " ")))
 	}
 }
@@ -1676,6 +1936,17 @@ var c04Fixed = []string{
 	// 1-to-2 rewrite whose second address is refused: the RCPT is refused after the first address was handed off
 	"C04 case 0 3 M 1 R 1 " + vh.HexRunes("carol@example.org") + " 2 " + vh.HexRunes("alice@example.org") + " " + vh.HexRunes("bob@example.com") +
 		" RU 1 " + vh.HexRunes("example.org") + " 1 D 0 DF 1 RJ 550 5 7 1 | 1 E " + vh.HexRunes("x@example.com") + " 1 " + vh.HexRunes("carol@example.org"),
+	// unusual but valid domains (underscore, address literals, "--" in positions 3-4, leading digit, single label,
+	// leading / trailing hyphen, joiner) that no rule names go to the default blocks, as sender and as recipient
+	"C04 case 0 2 SR 1 " + vh.HexRunes("example.org") + " 2 RU 1 " + vh.HexRunes("example.org") + " 1 D 0 DF 1 D 1" +
+		" SD 2 RU 1 " + vh.HexRunes("example.org") + " 1 D 2 DF 1 D 3 | 3" +
+		" E " + vh.HexRunes("sender@example.org") + " 3 " + vh.HexRunes("alice@example.org") + " " + vh.HexRunes("ops@build_host.example.net") + " " + vh.HexRunes("postmaster@[192.0.2.1]") +
+		" E " + vh.HexRunes("cron@build_host.example.net") + " 3 " + vh.HexRunes("bob@ab--c.example.net") + " " + vh.HexRunes("bob@3com.example") + " " + vh.HexRunes("bob@localhost") +
+		" E " + vh.HexRunes("root@[IPv6:2001:db8::1]") + " 3 " + vh.HexRunes("bob@-lead.example.org") + " " + vh.HexRunes("bob@trail-.example.org") + " " + vh.HexRunes("bob@a\u200db.example.org"),
+	// ... and are matched by their own rules in any letter case
+	"C04 case 0 3 RU 2 " + vh.HexRunes("BUILD_Host.Example.NET") + " " + vh.HexRunes("[IPv6:2001:DB8::1]") + " 1 D 0 RU 2 " + vh.HexRunes("ops@AB--C.example.net") + " " + vh.HexRunes("localhost.") + " 1 D 1 DF 1 RJ 550 5 1 1 | 2" +
+		" E " + vh.HexRunes("") + " 3 " + vh.HexRunes("ops@build_host.example.net") + " " + vh.HexRunes("x@[ipv6:2001:db8::1]") + " " + vh.HexRunes("OPS@ab--c.example.net") +
+		" E " + vh.HexRunes("a@LOCALHOST") + " 3 " + vh.HexRunes("alice@LocalHost") + " " + vh.HexRunes("bob@ab--c.example.net") + " " + vh.HexRunes("carol@xn--strae-oqa.de"),
 	// address rule declared after the domain rule still wins; duplicates: first declaration wins
 	"C04 case 0 4 RU 1 " + vh.HexRunes("example.org") + " 1 D 0 RU 2 " + vh.HexRunes("Alice@EXAMPLE.org") + " " + vh.HexRunes("example.org") + " 1 D 1 RU 1 " + vh.HexRunes("alice@example.org") + " 1 D 2 DF 1 RJ 554 5 7 0 | 1 E " +
 		vh.HexRunes("") + " 3 " + vh.HexRunes("alice@example.org") + " " + vh.HexRunes("bob@example.org") + " " + vh.HexRunes("bob@example.com"),
